@@ -81,9 +81,11 @@ def end_to_end(chk, MX, n):
             al, Re, M = (np.array(dd[k], dtype=float) for k in ("alpha", "Re", "M"))
             spans = [float(x) for x in seg._airfoil_spans]
             cps = [float(x) for x in seg.cp_span_locs]
-            for key, fn in (("section_CL", "get_CL"), ("section_Cm", "get_Cm")):     # (the parasitic drag is evaluated at the total-velocity Reynolds number, which is not reported)
-                vals = [np.array(getattr(af, fn)(alpha=al, Rey=Re, Mach=M, trailing_flap_deflection=seg._delta_flap, trailing_flap_fraction=seg._cp_c_f),
-                                 dtype=float) * np.ones(seg.N) for af in seg._airfoils]
+            for key, fn in (("section_CL", "get_CL"), ("section_Cm", "get_Cm"), ("section_aL0", "get_aL0")):     # (the parasitic drag is evaluated at the total-velocity Reynolds number, which is not reported)
+                kw_ = dict(Rey=Re, Mach=M, trailing_flap_deflection=seg._delta_flap, trailing_flap_fraction=seg._cp_c_f)
+                if fn != "get_aL0":
+                    kw_["alpha"] = al
+                vals = [np.array(getattr(af, fn)(**kw_), dtype=float) * np.ones(seg.N) for af in seg._airfoils]
                 exp = np.array([np.interp(cps[i], spans, [v[i] for v in vals]) for i in range(seg.N)])
                 got = np.array(dd[key], dtype=float)
                 if not np.allclose(got, exp, rtol=1e-4, atol=1e-7):
